@@ -697,6 +697,82 @@ def run_alias(ctx, c):  # noqa: C901
     ctx.outcome(f'alias:{r[0] if r[0] == "ok" else r[1]}')
 
 
+# =============================================================================================
+# (g) instances of node classes whose content contradicts their class (built through tuple.__new__ / dict.__setitem__)
+
+MALFORMED = ('nt-empty', 'nt-short', 'nt-long', 'nts-short', 'odict-extra-hidden-key', 'odict-hidden-deleted-key',
+             'ddict-extra-after-spec')
+MALFORMED_OPS = ('tree_flatten', 'tree_flatten_with_path', 'tree_flatten_with_accessor', 'tree_iter', 'tree_leaves',
+                 'tree_structure', 'tree_flatten_one_level', 'flatten_up_to', 'flatten_up_to-rev', 'tree_map', 'tree_map-rev',
+                 'tree_map_with_path', 'broadcast_prefix', 'broadcast_prefix-rev', 'tree_broadcast_common', 'prefix_errors',
+                 'prefix_errors-rev', 'tree_transpose_map', 'treespec_namedtuple', 'treespec_from_collection', 'roundtrip')
+
+
+def malformed_cases():
+    return [{'grid': 'malformed', 'object': m, 'where': w, 'op': op, 'crash_key': f'malformed-instance:{m}:{op}'}
+            for m in MALFORMED for w in ('root', 'in-list', 'in-dict') for op in MALFORMED_OPS]
+
+
+def _malformed(name):
+    """(well-formed instance, malformed instance of the same class)."""
+    a, b, c = Leaf(1), Leaf(2), Leaf(3)
+    if name.startswith('nt'):
+        cls = un.NT2s if name.startswith('nts') else un.NT2
+        items = {'empty': (), 'short': (a,), 'long': (a, b, c)}[name.split('-')[1]]
+        return cls(a, b), tuple.__new__(cls, items)
+    if name == 'odict-extra-hidden-key':
+        good, bad = OrderedDict(x=a, y=b), OrderedDict(x=a, y=b)
+        dict.__setitem__(bad, 'hidden', c)  # in the hash table, not in the linked list: len() 3, iteration yields 2
+        return good, bad
+    if name == 'odict-hidden-deleted-key':
+        good, bad = OrderedDict(x=a, y=b), OrderedDict(x=a, y=b)
+        dict.__delitem__(bad, 'x')  # still in the linked list: iteration raises KeyError / yields a dead key
+        return good, bad
+    good, bad = defaultdict(list, x=a, y=b), defaultdict(list, x=a, y=b)
+    return good, bad
+
+
+def run_malformed(ctx, c):  # noqa: C901
+    ctx.count()
+    ctx.cls(tuple(sorted((k, str(v)) for k, v in c.items())))
+    good, bad = _malformed(c['object'])
+    wrap = {'root': lambda o: o, 'in-list': lambda o: [Leaf(7), o], 'in-dict': lambda o: {'k': o, 'j': Leaf(7)}}[c['where']]
+    gt, bt = wrap(good), wrap(bad)
+    gspec = optree.tree_structure(gt)
+    if c['object'] == 'ddict-extra-after-spec':
+        bad['z'] = Leaf(9)  # grown after the treespec of the well-formed twin was taken
+    ident = lambda x, *r: x  # noqa: E731
+    ops = {
+        'tree_flatten': lambda: optree.tree_flatten(bt), 'tree_flatten_with_path': lambda: optree.tree_flatten_with_path(bt),
+        'tree_flatten_with_accessor': lambda: optree.tree_flatten_with_accessor(bt), 'tree_iter': lambda: list(optree.tree_iter(bt)),
+        'tree_leaves': lambda: optree.tree_leaves(bt), 'tree_structure': lambda: optree.tree_structure(bt),
+        'tree_flatten_one_level': lambda: optree.tree_flatten_one_level(bad),
+        'flatten_up_to': lambda: gspec.flatten_up_to(bt), 'flatten_up_to-rev': lambda: optree.tree_structure(bt).flatten_up_to(gt),
+        'tree_map': lambda: optree.tree_map(ident, gt, bt), 'tree_map-rev': lambda: optree.tree_map(ident, bt, gt),
+        'tree_map_with_path': lambda: optree.tree_map_with_path(lambda p, x, y: x, gt, bt),
+        'broadcast_prefix': lambda: optree.broadcast_prefix(gt, bt), 'broadcast_prefix-rev': lambda: optree.broadcast_prefix(bt, gt),
+        'tree_broadcast_common': lambda: optree.tree_broadcast_common(gt, bt),
+        'prefix_errors': lambda: optree.prefix_errors(gt, bt), 'prefix_errors-rev': lambda: optree.prefix_errors(bt, gt),
+        'tree_transpose_map': lambda: optree.tree_transpose_map(lambda x: wrap(_malformed(c['object'])[1]), gt),
+        'treespec_namedtuple': lambda: optree.treespec_namedtuple(
+            tuple.__new__(type(bad), [optree.treespec_leaf()] * len(bad)) if isinstance(bad, tuple) else bad),
+        'treespec_from_collection': lambda: optree.treespec_from_collection(
+            tuple.__new__(type(bad), [optree.treespec_leaf()] * len(bad)) if isinstance(bad, tuple) else
+            type(bad)(bad.default_factory, {k: optree.treespec_leaf() for k in bad}) if isinstance(bad, defaultdict) else bad),
+        'roundtrip': lambda: (lambda ls, sp: (sp.unflatten(ls), sp.paths(), sp.accessors(), repr(sp), hash(sp), sp.entries(),
+                                              sp.children()))(*optree.tree_flatten(bt)),
+    }
+    r = outcome_of(ops[c['op']])
+    if r[0] == 'ok' and isinstance(r[1], tuple) and len(r[1]) == 2 and isinstance(r[1][1], optree.PyTreeSpec):
+        leaves, spec = r[1]
+        if spec.num_leaves != len(leaves):
+            ctx.violation('malformed-instance', f'{PROP}:malformed-instance:inconsistent-result', c,
+                          f'num_leaves {spec.num_leaves} != {len(leaves)} leaves')
+        for follow in (lambda: spec.unflatten(leaves), spec.paths, spec.accessors, lambda: repr(spec), lambda: hash(spec)):
+            outcome_of(follow)  # may raise (the class constructor rejects the content) -- must not crash
+    ctx.outcome(f'malformed:{r[0] if r[0] == "ok" else r[1]}')
+
+
 def e1_universe():
     from mc import e1  # noqa: PLC0415
 
@@ -706,12 +782,12 @@ def e1_universe():
 # =============================================================================================
 
 def all_cases(tier):
-    cases = depth_cases() + deep_spec_cases() + mutation_cases() + argument_cases() + setstate_cases() + alias_cases()
+    cases = depth_cases() + deep_spec_cases() + mutation_cases() + argument_cases() + setstate_cases() + alias_cases() + malformed_cases()
     return cases
 
 
 RUNNERS = {'depth': run_depth, 'self-ref': run_depth, 'deep-spec': run_deep_spec, 'mutation': run_mutation,
-           'argument': run_argument, 'index': run_argument, 'setstate': run_setstate, 'setstate-top': run_setstate, 'alias': run_alias}
+           'argument': run_argument, 'index': run_argument, 'setstate': run_setstate, 'setstate-top': run_setstate, 'alias': run_alias, 'malformed': run_malformed}
 
 
 REL_SHARDS = 4  # shards 0..3 run on the release build with the default 8 MB stack: deep-spec grid only
